@@ -7,3 +7,4 @@ import Gleece.Properties.C01
 #print axioms Gleece.IR.squeeze_no_dd
 #print axioms Gleece.Assoc.get?_setAll
 #print axioms Gleece.Assoc.setAll_nodup
+#print axioms Gleece.Reduce.hidden_iff
